@@ -149,7 +149,14 @@ func litmus() string {
 			var m vsync.Mutex
 			x := ""
 			s := sched.New(prefix)
-			s.Run(func() { m.Lock(); x += "a"; m.Unlock(); m.Lock(); x += "A"; m.Unlock() }, func() { m.Lock(); x += "b"; m.Unlock() })
+			s.Run(func() {
+				m.Lock()
+				x += "a"
+				m.Unlock()
+				m.Lock()
+				x += "A"
+				m.Unlock()
+			}, func() { m.Lock(); x += "b"; m.Unlock() })
 			return x + fmt.Sprint(s.Trace)
 		}
 		if run([]int{1, 0}) != run([]int{1, 0}) {
